@@ -376,7 +376,9 @@ void Model::driver(int c, const wire::Msg &m) {
     while (mine < q.size() && q[mine].c != c) mine++;
     bool queued = mine < q.size();
     if (!queued) {
-      long held = 0;
+      // "max_names_per_connection": names a connection can own — its unique name is one of them,
+      // and a place in a queue is a claim that counts
+      long held = k.hello ? 1 : 0;
       for (auto &kv : names) for (auto &e : kv.second) if (e.c == c) held++;
       if (held >= lim.max_names_per_connection) {
         if (q.empty()) names.erase(name);
@@ -421,20 +423,22 @@ void Model::driver(int c, const wire::Msg &m) {
       q[mine].allow_replacement = allow;
       q[mine].do_not_queue = dnq;
       probes["waiter_updates_flags"]++;
-      if (replace && q.size() > 2) {
-        // Documents: "its flags are updated".  Position is not mentioned; admit unchanged or moved to second.
-        Choice ch;
-        ch.name = name; ch.id = "waiter-rerequest-position";
-        std::vector<int> same, moved;
-        for (auto &e : q) same.push_back(e.c);
-        moved.push_back(q.front().c); moved.push_back(c);
-        for (size_t i = 1; i < q.size(); i++) if (q[i].c != c) moved.push_back(q[i].c);
-        ch.admissible = {same, moved};
-        open_choices.push_back(ch);
-      }
     } else {
       q.push_back({c, allow, dnq});
       mine = q.size() - 1;
+    }
+    if (replace && !dnq && q.size() > 2 && mine != 1) {
+      // Documents: a waiter's "flags are updated" / a newcomer "is appended to the queue", but also
+      // "REPLACE_EXISTING results in jumping the queue".  Admit both readings: position as just
+      // described, or directly behind the primary owner.  The harness reads the actual order.
+      Choice ch;
+      ch.name = name; ch.id = queued ? "waiter-rerequest-position" : "new-waiter-with-replace-position";
+      std::vector<int> same, moved;
+      for (auto &e : q) same.push_back(e.c);
+      moved.push_back(q.front().c); moved.push_back(c);
+      for (size_t i = 1; i < q.size(); i++) if (q[i].c != c) moved.push_back(q[i].c);
+      ch.admissible = {same, moved};
+      open_choices.push_back(ch);
     }
     if (dnq) {
       q.erase(q.begin() + (long)mine);
@@ -633,14 +637,16 @@ void Model::process(int c, const wire::Msg &orig) {
   int R = owner_of(dest);
   if (R < 0) {
     probes["dest_missing"]++;
-    if (m.type == wire::T_CALL) {
+    {
+      // A method call must earn exactly one error.  For other message types the documents only
+      // require that nothing is delivered; an error to the sender is admitted.
       Exp e;
       e.from_bus = true;
       e.m = wire::Msg::error(1, m.serial, U(c), E_UNKNOWN);
       e.m.set_field(wire::F_SENDER, wire::Value::string(BUS));
       e.error_any_of = {E_UNKNOWN, E_NOOWNER};
       e.ignore_body = true;
-      e.optional = (m.flags & wire::FL_NO_REPLY_EXPECTED) != 0;
+      e.optional = m.type != wire::T_CALL || (m.flags & wire::FL_NO_REPLY_EXPECTED) != 0;
       e.what = "error: destination has no owner";
       e.prop = "C05";
       emit(c, e);
